@@ -298,6 +298,10 @@ var solvers = []solverSpec{
 		return []string{"cvc5", fmt.Sprintf("--tlimit=%d", ms), "--produce-models", "--arrays-exp", f}
 	}},
 	{"z3", func(f string, ms int) []string { return []string{"z3", fmt.Sprintf("-t:%d", ms), f} }},
+	// a second search strategy of the newer z3 (no auto-configuration, relevancy-driven case splits)
+	{"z3-new-cs", func(f string, ms int) []string {
+		return []string{"z3-new", fmt.Sprintf("-t:%d", ms), "smt.auto_config=false", "smt.case_split=3", f}
+	}},
 }
 
 type solveResult struct {
@@ -424,6 +428,10 @@ func dischargeAll(jobs []*obJob, timeoutMs int, workers int, scratch string) {
 					script := j.v.script(o, nil, true)
 					if len(script) <= 4<<20 {
 						o.Script = script
+						if d := os.Getenv("GVC_DUMP1"); d != "" {
+							os.MkdirAll(d, 0o755)
+							os.WriteFile(filepath.Join(d, smtIdent(o.Name)+".1.smt2"), []byte(script), 0o644)
+						}
 						r = solve(script, scratch, o.Name, min(timeoutMs, 4000), "")
 						tried = true
 					}
@@ -461,6 +469,33 @@ func dischargeAll(jobs []*obJob, timeoutMs int, workers int, scratch string) {
 	}
 	close(ch)
 	wg.Wait()
+	// Undecided obligations (timeout / unknown) are retried one at a time on an otherwise
+	// idle machine with a larger budget: a verdict must not depend on the load created by
+	// the other queries.  Many undecided obligations at once indicate a real failure and
+	// are not retried.
+	var undecided []*obJob
+	for _, j := range jobs {
+		if !j.o.MustSat && (j.o.Verdict == "timeout" || j.o.Verdict == "unknown") {
+			undecided = append(undecided, j)
+		}
+	}
+	if len(undecided) > 0 && len(undecided) <= 8 {
+		for _, j := range undecided {
+			o := j.o
+			big := min(3*timeoutMs, 90000)
+			var r solveResult
+			if !o.Goal.isFalse() {
+				r = solve(j.v.script(o, nil, true), scratch, o.Name+"_retry", big/2, "")
+			}
+			if r.verdict != "unsat" {
+				r = solve(j.v.script(o, j.values, false), scratch, o.Name+"_retry", big, "")
+			}
+			if r.verdict == "unsat" {
+				o.Verdict, o.Solver, o.Ms, o.Model, o.Outputs = r.verdict, r.solver, o.Ms+r.ms, r.output, r.outputs
+				o.Retried = true
+			}
+		}
+	}
 }
 
 type obJob struct {
